@@ -281,6 +281,20 @@ def check(prop, tier, seed, replay):
         else:
             proofs_ok = False
             broken_detail = "Print Assumptions not clean:\n" + assumptions_out[-3000:]
+    # thorough tier: the independent checker re-checks the compiled cone and lists its axioms
+    coqchk_out = ""
+    if tier == "thorough" and proofs_ok:
+        obligations += 1
+        rc_k, coqchk_out = sh(["coqchk", "-silent", "-o", "-Q", COQ, "Verif", "Verif.Properties.%s" % prop], cwd=COQ, timeout=3600)
+        summary = coqchk_out[coqchk_out.find("CONTEXT SUMMARY"):] if "CONTEXT SUMMARY" in coqchk_out else coqchk_out[-1500:]
+        clean = (rc_k == 0 and re.search(r"Axioms:\s*<none>", summary) and re.search(r"type-in-type:\s*<none>", summary)
+                 and re.search(r"unsafe \(co\)fixpoints:\s*<none>", summary) and re.search(r"positivity is assumed:\s*<none>", summary))
+        coqchk_out = summary.strip()
+        if clean:
+            discharged += 1
+        else:
+            proofs_ok = False
+            broken_detail = "coqchk did not accept the cone or lists axioms:\n" + summary[-3000:]
     obligations += 1
     gate = grep_gate()
     if gate:
@@ -424,7 +438,7 @@ def check(prop, tier, seed, replay):
         exit_code = 1
 
     write_evidence(prop, tier, seed, meta, res, obligations, discharged, thms,
-                   {"assumptions_output": assumptions_out.strip()[:2000],
+                   {"assumptions_output": assumptions_out.strip()[:2000], "coqchk_summary": coqchk_out[:1500],
                     "corr_mismatches": len(corr_mismatch), "corr_mismatches_explained_by_known_findings": len(corr_mismatch) - len(unexplained_all), "spec_failures_in_kernel": len(spec_fail),
                     "kernel_eval_s": round(kernel_s, 2), "known_findings_matched": matched,
                     "statements_in_cone": n_stmts, "cone_files": cone_files,
@@ -450,8 +464,9 @@ def write_evidence(prop, tier, seed, meta, res, obligations, discharged, thms, e
     cov = {
         "obligations": obligations,
         "discharged": discharged,
-        "checker_cmd": "cd coq && coq_makefile -f _CoqProject -o Makefile && make -j16 %s  (coqc 8.16.1, full .vo build); coqc assump.v (Print Assumptions); coqc cases_*.v (vm_compute correspondence)"
-                       % " ".join(f[:-2] + ".vo" for f in meta["coq"]),
+        "checker_cmd": ("cd coq && coq_makefile -f _CoqProject -o Makefile && make -j16 %s  (coqc 8.16.1, full .vo build); coqc assump.v (Print Assumptions); coqc cases_*.v (vm_compute correspondence)"
+                        % " ".join(f[:-2] + ".vo" for f in meta["coq"]))
+                       + ("; coqchk -silent -o -Q coq Verif Verif.Properties.%s (independent re-check of the compiled cone, axiom list)" % prop if tier == "thorough" else ""),
         "trusted_base": COMMON_TRUSTED + meta.get("trusted", []),
         "theorems": thms,
         "theorem_status": meta.get("theorem_status", {}),
